@@ -14,12 +14,12 @@ import (
 	"github.com/Trendyol/go-dcp/couchbase"
 	"github.com/Trendyol/go-dcp/metadata"
 	"github.com/Trendyol/go-dcp/metric"
-	"github.com/prometheus/client_golang/prometheus"
 	"github.com/Trendyol/go-dcp/models"
 	"github.com/Trendyol/go-dcp/stream"
 	"github.com/Trendyol/go-dcp/stream/offset"
 	"github.com/Trendyol/go-dcp/tracing"
 	"github.com/couchbase/gocbcore/v10"
+	"github.com/prometheus/client_golang/prometheus"
 )
 
 type saverG struct {
@@ -236,6 +236,7 @@ func (e *sessEnv) exec(line string) (res string) {
 		e.cl.mu.Unlock()
 		e.st = stream.NewStream(e.cl, e.md, e.cfg, &couchbase.Version{Major: 7, Minor: 6}, &couchbase.BucketInfo{BucketType: "membase"},
 			e.disc, e.co, e.colls, e.stop, e.eh, tracing.NewTracerComponent())
+		e.eh.st = e.st
 		e.isOpen = false
 		e.st.Open()
 		e.isOpen = true
